@@ -185,6 +185,12 @@ let parse_request (tok : string) : (Model.request * Model.outcome_s) option =
   | _ -> None
 
 (* legacy flags: (legacy acceptance rule, no de-duplication) *)
+(* [canon]: dumps are taken modulo purgeable tombstones (the set as a purge would leave it; store
+   rows of tombstones older than the cut-off dropped).  hx-restart runs on a real-time runtime, where
+   the node's own purge task fires about a millisecond after every start, at a point of the history
+   nobody controls; purging is invisible to every other observation (C08). *)
+let canon_dump = ref false
+
 let run_actor_gen (legacy : bool) (dedup : bool) (toks : string list) : string =
   match toks with
   | "act" :: pr :: reqs ->
@@ -244,7 +250,19 @@ let run_actor_gen (legacy : bool) (dedup : bool) (toks : string list) : string =
               | None -> "?tok"
           in
           let s, st = !state in
-          reply ^ " " ^ show_set_dump s probes ^ " " ^ show_store_dump st)
+          if !canon_dump then begin
+            let _, s' = Model.set_purge s in
+            let st' =
+              List.fold_left
+                (fun acc (k, (t, p)) ->
+                  match p with
+                  | None when Model.before_set s t -> Model.st_remove acc k
+                  | _ -> acc)
+                st (Model.store_list st)
+            in
+            reply ^ " " ^ show_set_dump s' probes ^ " " ^ show_store_dump st'
+          end
+          else reply ^ " " ^ show_set_dump s probes ^ " " ^ show_store_dump st)
         reqs
     in
     String.concat " | " outs
@@ -548,7 +566,9 @@ let () =
     | "transfer" -> run_transfer
     | "rows" -> run_ts
     (* hx-restart: "<backend> act ..." - the actor model, whatever the backend *)
-    | "restart" -> (fun toks -> match toks with _ :: rest -> run_actor_gen false true rest | [] -> "?bad-case")
+    | "restart" ->
+      canon_dump := true;
+      (fun toks -> match toks with _ :: rest -> run_actor_gen false true rest | [] -> "?bad-case")
     | _ -> prerr_endline ("unknown component " ^ comp); exit 2
   in
   let out = Buffer.create 65536 in
